@@ -37,6 +37,25 @@ impl<'l> StringScanner<'l> {
 pub open spec fn advance(l: (nat, nat), c: char) -> (nat, nat) { if c == '\n' { (l.0 + 1, 0) } else { (l.0, l.1 + 1) } }
 pub closed spec fn sl_line(s: SourceLocation) -> nat { s.0 as nat }
 pub closed spec fn sl_col(s: SourceLocation) -> nat { s.1 as nat }
+
+impl Clone for SourceRange { #[verifier::external_body] fn clone(&self) -> (r: Self) ensures r == *self { unimplemented!() } }
+impl Copy for SourceRange {}
+impl Clone for SourceLocation { #[verifier::external_body] fn clone(&self) -> (r: Self) ensures r == *self { unimplemented!() } }
+impl Copy for SourceLocation {}
+// ---- spans ---------------------------------------------------------------------------------------------------------------------
+/// positions are ordered by line, then column (#[derive(PartialOrd, Ord)] on SourceLocation(line, col): ASSUMED lexicographic)
+pub closed spec fn loc_le(a: SourceLocation, b: SourceLocation) -> bool { a.0 < b.0 || (a.0 == b.0 && a.1 <= b.1) }
+pub open spec fn loc_min(a: SourceLocation, b: SourceLocation) -> SourceLocation { if loc_le(a, b) { a } else { b } }
+pub open spec fn loc_max(a: SourceLocation, b: SourceLocation) -> SourceLocation { if loc_le(a, b) { b } else { a } }
+/// R2m: Ord::min / Ord::max on SourceLocation (derived order)
+#[verifier::external_body] pub fn s_loc_min(a: SourceLocation, b: SourceLocation) -> (r: SourceLocation) ensures r == loc_min(a, b) { unimplemented!() }
+#[verifier::external_body] pub fn s_loc_max(a: SourceLocation, b: SourceLocation) -> (r: SourceLocation) ensures r == loc_max(a, b) { unimplemented!() }
+pub closed spec fn r_end(r: SourceRange) -> SourceLocation { r.end }
+pub closed spec fn r_start(r: SourceRange) -> SourceLocation { r.start }
+pub closed spec fn mk_range(a: SourceLocation, b: SourceLocation) -> SourceRange { SourceRange { start: a, end: b } }
+/// the smallest span containing both: from the earlier start to the later end
+pub closed spec fn hull(a: SourceRange, b: SourceRange) -> SourceRange { mk_range(loc_min(a.start, b.start), loc_max(a.end, b.end)) }
+pub open spec fn contains(outer: SourceRange, inner: SourceRange) -> bool { loc_le(r_start(outer), r_start(inner)) && loc_le(r_end(inner), r_end(outer)) }
 '''
 
 
@@ -45,6 +64,7 @@ def build():
     U.raw(C.HEADER, 'header')
     U.extract(SL, 'struct SourceLocation')
     U.extract(SS, 'struct StringScanner')
+    U.extract('rscel/src/compiler/source_range.rs', 'struct SourceRange')
     U.raw(PRELUDE, 'scanner model')
     P = ('C18', 'C01')
     U.extract(SL, 'impl SourceLocation', fns={
@@ -71,5 +91,19 @@ def build():
                                 else { r is None && final(self).remaining().len() == 0 && final(self).eof })''')], props=P),
         'input': A(ret='r', props=('C01',)),
     })
+    U.extract('rscel/src/compiler/source_range.rs', 'impl SourceRange', fns={
+        'new': A(ret='r', ensures=[('def', 'r == mk_range(start, end)')], props=P),
+        'start': A(ret='r', ensures=[('def', 'r == r_start(*self)')], props=P),
+        'end': A(ret='r', ensures=[('def', 'r == r_end(*self)')], props=P),
+        'surrounding': A(ret='r', ensures=[('smallest_span_containing_both', 'r == hull(self, other)')], mcalls={'min': 's_loc_min', 'max': 's_loc_max'}, props=P),
+    })
+    U.lemmas = [('lemma_hull_commutes', ('C18',)), ('lemma_hull_is_the_smallest_containing_span', ('C18',))]
+    U.raw('''
+/// the order of the two spans does not matter (this is the axiom the parser units use)
+pub proof fn lemma_hull_commutes(a: SourceRange, b: SourceRange) ensures hull(a, b) == hull(b, a) {}
+/// the hull contains both spans, and every span containing both contains the hull
+pub proof fn lemma_hull_is_the_smallest_containing_span(a: SourceRange, b: SourceRange, c: SourceRange)
+    ensures contains(hull(a, b), a), contains(hull(a, b), b), contains(c, a) && contains(c, b) ==> contains(c, hull(a, b)) {}
+''', 'span lemmas')
     U.raw(C.FOOTER, 'footer')
     return U
